@@ -747,7 +747,7 @@ func (r *renderer) node(n *DNode, depth int, first bool) {
 		b.WriteString("  ")
 	}
 	b.WriteString(l.NL)
-	textStart := b.Len() - len(l.NL) + 1 // the byte after the first newline byte of the header line
+	textStart := b.Len() // the first byte after the line break of the header line (since fix c002d11 also in CRLF files)
 	if n.BodyKind == "text" {
 		// Description: the parentheses delimit the text, they are part of the Text lexeme
 		if explicit {
